@@ -28,7 +28,8 @@ Inductive case :=
 | CRt (pb : bool) (e : sexp) (cuts : list N)      (* encode, then feed in chunks of the given sizes *)
 | CRaw (pb : bool) (data : list N) (cuts : list N)
 | CB128 (n : N)
-| CFrom (digits : list N).
+| CFrom (digits : list N)
+| CHist (pb : bool) (es : list sexp) (cuts : list N).   (* several sendEncoded calls on one connection *)
 
 (** cut [data] into chunks of the given sizes (a zero or missing size takes the rest) *)
 Fixpoint chunks (cuts : list N) (data : list N) : list (list N) :=
@@ -50,4 +51,7 @@ Definition run_show (c : case) : string :=
   | CRaw pb d cuts => show_state (feed_all pb init (chunks cuts d))
   | CB128 n => show_hex (b128 n) ++ "|" ++ show_N (from_le128 (b128 n))
   | CFrom d => show_N (from_le128 d)
+  | CHist pb es cuts =>
+      String.concat "" (map (fun e => if accepts pb e then "A" else "R") es) ++ "|" ++ show_hex (send_all pb es)
+      ++ "|" ++ show_state (feed_all pb init (chunks cuts (send_all pb es)))
   end.
